@@ -8,6 +8,7 @@ import OHVerif.Model.Functor
 import OHVerif.Lemmas.StrictWF
 import OHVerif.Props.C05
 import OHVerif.Props.C12
+import OHVerif.Props.C09
 
 namespace OH
 
@@ -197,4 +198,251 @@ theorem spiderMapArrow_ok_type [DecidableEq O2] (B : Backend) (hB : B.Lawful) (f
     · exact Or.inl h2
 
 end SFunctor
+
+/-! ### lax diagrams: boundary types through `to_strict` and `tensor` -/
+
+namespace LaxType
+open LaxEdit LaxStrict
+
+theorem filterMap_congr' {α β : Type} (l : List α) (f g : α → Option β)
+    (h : ∀ a ∈ l, f a = g a) : l.filterMap f = l.filterMap g := by
+  induction l with
+  | nil => rfl
+  | cons a l ih =>
+    simp only [List.filterMap_cons, h a (by simp)]
+    rw [ih (fun b hb => h b (by simp [hb]))]
+
+/-- boundary types of a well-formed lax diagram -/
+theorem source_ok (d : LOHG O A) (hwf : d.wf = true) :
+    d.source = .ok (Prim.gatherP d.hypergraph.nodes d.sources) ∧
+    d.target = .ok (Prim.gatherP d.hypergraph.nodes d.targets) := by
+  have hw := (owf_iff d).1 hwf
+  constructor
+  · rw [LaxStrict.source_eq, if_pos hw.src]
+  · rw [LaxStrict.target_eq, if_pos hw.tgt]
+
+/-- `to_strict` of a well-formed, label-consistent lax diagram, for every lawful backend: defined,
+    well-formed, same boundary types, same hyperedges (labels, arities, order), node labels among
+    the old node labels. -/
+theorem toStrict_type [DecidableEq O] (B : Backend) (hB : B.Lawful) (d : LOHG O A)
+    (hwf : d.wf = true) (hc : C09.LabelConsistent d.hypergraph) :
+    ∃ r, LOHG.toStrict B d = .ok r ∧ r.WF ∧ r.source = d.source ∧ r.target = d.target ∧
+      r.h.x = d.hypergraph.edges ∧
+      r.h.s.sources.table = d.hypergraph.adjacency.map (·.sources.length) ∧
+      r.h.t.sources.table = d.hypergraph.adjacency.map (·.targets.length) ∧
+      (∀ l ∈ r.h.w, l ∈ d.hypergraph.nodes) := by
+  have hw := (owf_iff d).1 hwf
+  have hhwf : d.hypergraph.wf = true := (LaxEdit.wf_iff _).2 hw.hg
+  obtain ⟨q, h', hqH, hlen, htgt, hin, honto, _, hlab, hedges, hadj, _, _⟩ :=
+    C09.quotient_ok B hB d.hypergraph hhwf hc
+  obtain ⟨q2, h2, hqH2, hq2, hwf2⟩ := (C09.quotient_open B hB d hwf).1 hc
+  rw [hqH] at hqH2
+  injection hqH2 with hqH2
+  injection hqH2 with _ hqH2
+  injection hqH2 with e1 e2
+  subst e1; subst e2
+  have hts := toStrict_of_quotient B d _ q hq2 hwf2
+  have hpW := (OHG.wf_iff _).1 (pack_wf _ hwf2)
+  have hty : ∀ ids : List Nat, (∀ i ∈ ids, i < d.hypergraph.nodes.length) →
+      Prim.gatherP h'.nodes (ids.map (fun i => q.table.getD i 0)) =
+        Prim.gatherP d.hypergraph.nodes ids := by
+    intro ids hids
+    rw [gatherP_map_idx]
+    exact filterMap_congr' _ _ _ (fun i hi => hlab i (hids i hi))
+  refine ⟨_, hts, hpW, ?_, ?_, hedges, ?_, ?_, ?_⟩
+  · rw [OHG.source_eq _ hpW.src_wf hpW.src_nodes, (source_ok d hwf).1]
+    exact congrArg Res.ok (hty _ hw.src)
+  · rw [OHG.target_eq _ hpW.tgt_wf hpW.tgt_nodes, (source_ok d hwf).2]
+    exact congrArg Res.ok (hty _ hw.tgt)
+  · show (h'.adjacency.map (·.sources)).map List.length = _
+    rw [hadj]
+    simp [C09.mapEdge, List.map_map, Function.comp_def]
+  · show (h'.adjacency.map (·.targets)).map List.length = _
+    rw [hadj]
+    simp [C09.mapEdge, List.map_map, Function.comp_def]
+  · intro l hl
+    show l ∈ d.hypergraph.nodes
+    have hl' : l ∈ h'.nodes := hl
+    obtain ⟨c, hc'⟩ := List.mem_iff_getElem?.1 hl'
+    have hcl : c < h'.nodes.length := (List.getElem?_eq_some_iff.1 hc').1
+    obtain ⟨i, hi, hqi⟩ := honto c hcl
+    have := hlab i hi
+    have hgd : q.table.getD i 0 = c := by
+      simp [List.getD_eq_getElem?_getD, hqi]
+    rw [hgd, hc'] at this
+    exact List.mem_of_getElem? this.symm
+
+/-- boundary types of a lax tensor: concatenation -/
+theorem tensor_type (f g : LOHG O A) (hf : f.wf = true) (hg : g.wf = true) :
+    (LOHG.tensor f g).wf = true ∧
+    (LOHG.tensor f g).source =
+      .ok (Prim.gatherP f.hypergraph.nodes f.sources ++ Prim.gatherP g.hypergraph.nodes g.sources) ∧
+    (LOHG.tensor f g).target =
+      .ok (Prim.gatherP f.hypergraph.nodes f.targets ++ Prim.gatherP g.hypergraph.nodes g.targets) := by
+  have hwf := LaxStrict.tensor_wf f g hf hg
+  have hfw := (owf_iff f).1 hf
+  have key : ∀ fs gs : List Nat, (∀ i ∈ fs, i < f.hypergraph.nodes.length) →
+      Prim.gatherP (f.hypergraph.nodes ++ g.hypergraph.nodes)
+        (fs ++ gs.map (· + f.hypergraph.nodes.length)) =
+      Prim.gatherP f.hypergraph.nodes fs ++ Prim.gatherP g.hypergraph.nodes gs := by
+    intro fs gs hfs
+    have e : (fun x => x + f.hypergraph.nodes.length) = (fun x => f.hypergraph.nodes.length + x) :=
+      funext fun x => Nat.add_comm _ _
+    rw [gatherP_append_idx, gatherP_append_left _ _ _ hfs, e, gatherP_append_right]
+  refine ⟨hwf, ?_, ?_⟩
+  · rw [(source_ok _ hwf).1]
+    exact congrArg Res.ok (key _ _ hfw.src)
+  · rw [(source_ok _ hwf).2]
+    exact congrArg Res.ok (key _ _ hfw.tgt)
+
+/-- a recorded pair of a coproduct comes from one of the two summands -/
+theorem pairs_coproduct (g h : LHG O A) (hg : WF g) {a b : Nat}
+    (hp : C09.Pairs (LHG.coproduct g h) a b) :
+    C09.Pairs g a b ∨ ∃ a' b', a = a' + g.nodes.length ∧ b = b' + g.nodes.length ∧
+      C09.Pairs h a' b' := by
+  obtain ⟨k, h1, h2⟩ := hp
+  simp only [LHG.coproduct] at h1 h2
+  by_cases hk : k < g.quotient.1.length
+  · left
+    rw [List.getElem?_append_left hk] at h1
+    rw [List.getElem?_append_left (by rw [← hg.qlen]; exact hk)] at h2
+    exact ⟨k, h1, h2⟩
+  · right
+    have hk' : g.quotient.1.length ≤ k := Nat.le_of_not_lt hk
+    rw [List.getElem?_append_right hk'] at h1
+    rw [List.getElem?_append_right (by rw [← hg.qlen]; exact hk')] at h2
+    simp only [List.getElem?_map, Option.map_eq_some_iff] at h1 h2
+    obtain ⟨a', ha', rfl⟩ := h1
+    obtain ⟨b', hb', rfl⟩ := h2
+    refine ⟨a', b', rfl, rfl, k - g.quotient.1.length, ha', ?_⟩
+    rw [hg.qlen]; exact hb'
+
+/-- the classes of a coproduct stay inside the summands -/
+theorem eqvGen_coproduct (g h : LHG O A) (hg : WF g) {i j : Nat}
+    (he : Relation.EqvGen (C09.Pairs (LHG.coproduct g h)) i j) :
+    i = j ∨ (i < g.nodes.length ∧ j < g.nodes.length ∧ Relation.EqvGen (C09.Pairs g) i j) ∨
+      (g.nodes.length ≤ i ∧ g.nodes.length ≤ j ∧
+        Relation.EqvGen (C09.Pairs h) (i - g.nodes.length) (j - g.nodes.length)) := by
+  induction he with
+  | rel a b hab =>
+    rcases pairs_coproduct g h hg hab with hp | ⟨a', b', rfl, rfl, hp⟩
+    · obtain ⟨h1, h2⟩ := C09.pairs_lt g hg hp
+      exact Or.inr (Or.inl ⟨h1, h2, Relation.EqvGen.rel _ _ hp⟩)
+    · refine Or.inr (Or.inr ⟨Nat.le_add_left _ _, Nat.le_add_left _ _, ?_⟩)
+      simp only [Nat.add_sub_cancel]
+      exact Relation.EqvGen.rel _ _ hp
+  | refl a => exact Or.inl rfl
+  | symm a b _ ih =>
+    rcases ih with ih | ⟨h1, h2, h3⟩ | ⟨h1, h2, h3⟩
+    · exact Or.inl ih.symm
+    · exact Or.inr (Or.inl ⟨h2, h1, h3.symm _ _⟩)
+    · exact Or.inr (Or.inr ⟨h2, h1, h3.symm _ _⟩)
+  | trans a b c _ _ ih1 ih2 =>
+    rcases ih1 with ih1 | ⟨h1, h2, h3⟩ | ⟨h1, h2, h3⟩
+    · subst ih1; exact ih2
+    · rcases ih2 with ih2 | ⟨k1, k2, k3⟩ | ⟨k1, k2, k3⟩
+      · subst ih2; exact Or.inr (Or.inl ⟨h1, h2, h3⟩)
+      · exact Or.inr (Or.inl ⟨h1, k2, h3.trans _ _ _ k3⟩)
+      · omega
+    · rcases ih2 with ih2 | ⟨k1, k2, k3⟩ | ⟨k1, k2, k3⟩
+      · subst ih2; exact Or.inr (Or.inr ⟨h1, h2, h3⟩)
+      · omega
+      · exact Or.inr (Or.inr ⟨h1, k2, h3.trans _ _ _ k3⟩)
+
+/-- label consistency is preserved by the coproduct -/
+theorem labelConsistent_coproduct (g h : LHG O A) (hg : WF g) (cg : C09.LabelConsistent g)
+    (ch : C09.LabelConsistent h) : C09.LabelConsistent (LHG.coproduct g h) := by
+  intro i j he
+  show (g.nodes ++ h.nodes)[i]? = (g.nodes ++ h.nodes)[j]?
+  rcases eqvGen_coproduct g h hg he with e | ⟨h1, h2, h3⟩ | ⟨h1, h2, h3⟩
+  · rw [e]
+  · rw [List.getElem?_append_left h1, List.getElem?_append_left h2]
+    exact cg i j h3
+  · rw [List.getElem?_append_right h1, List.getElem?_append_right h2]
+    exact ch _ _ h3
+
+/-- no pending unification: trivially label-consistent -/
+theorem labelConsistent_of_nopending (h : LHG O A) (hq : h.quotient = ([], [])) :
+    C09.LabelConsistent h := by
+  intro i j he
+  rw [C09.eqvGen_nopairs h hq he]
+
+theorem labelConsistent_empty : C09.LabelConsistent (LHG.empty : LHG O A) := by
+  intro i j _
+  simp [LHG.empty]
+
+/-- left-nested tensor of a list of lax diagrams onto `acc` (what the `tensor_assign` loop of
+    `DynFunctor::map_operations` computes) -/
+def tensorAll (acc : LOHG O A) (ds : List (LOHG O A)) : LOHG O A := ds.foldl LOHG.tensor acc
+
+/-- the boundary type of a well-formed lax diagram as a list -/
+def srcTy (d : LOHG O A) : List O := Prim.gatherP d.hypergraph.nodes d.sources
+def tgtTy (d : LOHG O A) : List O := Prim.gatherP d.hypergraph.nodes d.targets
+
+theorem tensorAll_spec (ds : List (LOHG O A)) :
+    ∀ (acc : LOHG O A), acc.wf = true → C09.LabelConsistent acc.hypergraph →
+    (∀ d ∈ ds, d.wf = true ∧ C09.LabelConsistent d.hypergraph) →
+    (tensorAll acc ds).wf = true ∧ C09.LabelConsistent (tensorAll acc ds).hypergraph ∧
+    srcTy (tensorAll acc ds) = srcTy acc ++ ds.flatMap srcTy ∧
+    tgtTy (tensorAll acc ds) = tgtTy acc ++ ds.flatMap tgtTy ∧
+    (tensorAll acc ds).hypergraph.edges =
+      acc.hypergraph.edges ++ ds.flatMap (·.hypergraph.edges) ∧
+    (tensorAll acc ds).hypergraph.adjacency.map (·.sources.length) =
+      acc.hypergraph.adjacency.map (·.sources.length) ++
+        ds.flatMap (·.hypergraph.adjacency.map (·.sources.length)) ∧
+    (tensorAll acc ds).hypergraph.adjacency.map (·.targets.length) =
+      acc.hypergraph.adjacency.map (·.targets.length) ++
+        ds.flatMap (·.hypergraph.adjacency.map (·.targets.length)) ∧
+    (tensorAll acc ds).hypergraph.nodes =
+      acc.hypergraph.nodes ++ ds.flatMap (·.hypergraph.nodes) := by
+  induction ds with
+  | nil =>
+    intro acc hacc cacc _
+    simp [tensorAll, hacc, cacc]
+  | cons d ds ih =>
+    intro acc hacc cacc hds
+    obtain ⟨hd, cd⟩ := hds d (by simp)
+    obtain ⟨hw, hs, ht⟩ := tensor_type acc d hacc hd
+    have hc : C09.LabelConsistent (LOHG.tensor acc d).hypergraph :=
+      labelConsistent_coproduct _ _ ((owf_iff acc).1 hacc).hg cacc cd
+    obtain ⟨i1, i2, i3, i4, i5, i6, i7, i8⟩ :=
+      ih (LOHG.tensor acc d) hw hc (fun d' hd' => hds d' (by simp [hd']))
+    have es : srcTy (LOHG.tensor acc d) = srcTy acc ++ srcTy d := by
+      have := (source_ok _ hw).1
+      rw [hs] at this
+      injection this with this
+      exact this.symm
+    have et : tgtTy (LOHG.tensor acc d) = tgtTy acc ++ tgtTy d := by
+      have := (source_ok _ hw).2
+      rw [ht] at this
+      injection this with this
+      exact this.symm
+    have e0 : tensorAll acc (d :: ds) = tensorAll (LOHG.tensor acc d) ds := rfl
+    rw [e0]
+    refine ⟨i1, i2, ?_, ?_, ?_, ?_, ?_, ?_⟩
+    · rw [i3, es]; simp
+    · rw [i4, et]; simp
+    · rw [i5]; simp [LOHG.tensor, LHG.coproduct]
+    · rw [i6]; simp [LOHG.tensor, LHG.coproduct, List.map_map, Function.comp_def]
+    · rw [i7]; simp [LOHG.tensor, LHG.coproduct, List.map_map, Function.comp_def]
+    · rw [i8]; simp [LOHG.tensor, LHG.coproduct]
+
+/-- the `tensor_assign` loop of `DynFunctor::map_operations`, when every generator image is
+    defined -/
+theorem foldlM_tensorAssign {O1 A1 O2 A2 : Type} (G : LFunctor O1 A1 O2 A2)
+    (img : A1 → List O1 → List O1 → LOHG O2 A2) (triples : List (A1 × List O1 × List O1)) :
+    ∀ acc : LOHG O2 A2,
+    (∀ t ∈ triples, G.mapOperation t.1 t.2.1 t.2.2 = .ok (img t.1 t.2.1 t.2.2)) →
+    triples.foldlM (fun acc t => do
+        let im ← G.mapOperation t.1 t.2.1 t.2.2
+        pure (LOHG.tensorAssign acc im)) acc =
+      .ok (tensorAll acc (triples.map (fun t => img t.1 t.2.1 t.2.2))) := by
+  induction triples with
+  | nil => intro acc _; rfl
+  | cons t ts ih =>
+    intro acc h
+    rw [List.foldlM_cons, h t (by simp)]
+    exact ih _ (fun t' ht' => h t' (by simp [ht']))
+
+end LaxType
 end OH
